@@ -37,13 +37,21 @@ impl Event {
 /// carries an optional hook that `ScriptedUv` runs while the user step is pending (the world may
 /// change during the prompt).
 #[derive(Clone, Default)]
-pub struct Log(pub Arc<Mutex<Vec<Event>>>, pub Arc<Mutex<Option<Arc<dyn Fn() + Send + Sync>>>>);
+pub struct Log(pub Arc<Mutex<Vec<Event>>>, pub Arc<Mutex<Option<Arc<dyn Fn() + Send + Sync>>>>, pub Arc<Mutex<Option<UvOutcome>>>);
 impl Log {
     pub fn new() -> Self {
         Self::default()
     }
     pub fn set_prompt_hook(&self, f: Arc<dyn Fn() + Send + Sync>) {
         *self.1.lock().unwrap() = Some(f);
+    }
+    /// What the scripted user answers from now on, whatever the method was built with (None = as built):
+    /// lets one long-lived authenticator meet a user who denies some requests and grants others.
+    pub fn set_answer(&self, o: Option<UvOutcome>) {
+        *self.2.lock().unwrap() = o;
+    }
+    fn answer(&self) -> Option<UvOutcome> {
+        *self.2.lock().unwrap()
     }
     fn run_prompt_hook(&self) {
         let h = self.1.lock().unwrap().clone();
@@ -466,6 +474,59 @@ impl<S: Inspect> Inspect for ReorderKeys<S> {
     }
 }
 
+/// A store whose items spell their `rp_id` member differently from the RP ID they are looked up
+/// under (a vault that keeps a website URL, an upper-case or dotted host, nothing at all): the
+/// lookup is the store's business, and what a ceremony is bound to is the RP ID of the *request*.
+/// how: 0 empty, 1 upper case, 2 trailing dot, 3 an https URL, 4 another host.  Write-backs restore
+/// the stored spelling (the store keys its records by id).
+#[derive(Clone)]
+pub struct RelabelRp<S> {
+    pub inner: S,
+    pub how: u8,
+}
+impl<S> RelabelRp<S> {
+    fn relabel(&self, rp: &str) -> String {
+        match self.how {
+            0 => String::new(),
+            1 => rp.to_ascii_uppercase(),
+            2 => format!("{rp}."),
+            3 => format!("https://{rp}/login"),
+            _ => "vault.example.net".into(),
+        }
+    }
+}
+#[async_trait::async_trait]
+impl<S: CredentialStore<PasskeyItem = Passkey> + Send + Sync> CredentialStore for RelabelRp<S> {
+    type PasskeyItem = Passkey;
+    async fn find_credentials(&self, ids: Option<&[PublicKeyCredentialDescriptor]>, rp_id: &str) -> Result<Vec<Passkey>, StatusCode> {
+        let mut v = self.inner.find_credentials(ids, rp_id).await?;
+        for p in v.iter_mut() {
+            p.rp_id = self.relabel(rp_id);
+        }
+        Ok(v)
+    }
+    async fn save_credential(&mut self, cred: Passkey, user: PublicKeyCredentialUserEntity, rp: PublicKeyCredentialRpEntity, options: Options) -> Result<(), StatusCode> {
+        self.inner.save_credential(cred, user, rp, options).await
+    }
+    async fn update_credential(&mut self, mut cred: Passkey) -> Result<(), StatusCode> {
+        // the record keeps the RP it was stored under
+        if let Ok(found) = self.inner.find_credentials(Some(&[descriptor(&cred.credential_id)]), "example.com").await {
+            if let Some(f) = found.first() {
+                cred.rp_id = f.rp_id.clone();
+            }
+        }
+        self.inner.update_credential(cred).await
+    }
+    async fn get_info(&self) -> StoreInfo {
+        self.inner.get_info().await
+    }
+}
+impl<S: Inspect> Inspect for RelabelRp<S> {
+    fn recs(&self) -> Vec<Rec> {
+        self.inner.recs()
+    }
+}
+
 /// Suspends `before` times before and `after` times after each call of the inner store.
 #[derive(Clone)]
 pub struct Yielding<S> {
@@ -614,7 +675,7 @@ impl UserValidationMethod for ScriptedUv {
             crate::core::clock::advance(slow);
         }
         yield_n(self.yields.max(usize::from(slow != 0))).await;
-        let (r, logged) = match self.outcome {
+        let (r, logged) = match self.log.answer().unwrap_or(self.outcome) {
             UvOutcome::Ok { presence: p, verification: v } => (Ok(UserCheck { presence: p, verification: v }), Ok((p, v))),
             UvOutcome::Err(b) => {
                 let e = Ctap2Error::try_from(b).unwrap_or(Ctap2Error::OperationDenied);
